@@ -129,6 +129,24 @@ def run_case(chk, case):
                 made = False
             if made != psd:
                 bad("construct", "construction with physicality required %s, dissipator matrix PSD: %s" % (made, psd))
+        # ... and ONLY then: one non-zero entry anywhere in the first row (the (0, 0) entry - a uniform loss of trace - included)
+        # makes the generator non trace preserving, hence unphysical and refused by the constructor
+        for b_ in range(el.hs.shape[0]):
+            for delta, expect_tp in ((1e-6, False), (-3e-4, False), (1e-13, True)):
+                hs_b = el.hs.copy()
+                hs_b[0, b_] += delta
+                eb = EL.EffectiveLindbladian(c, hs_b, is_physicality_required=False)
+                if bool(eb.is_tp(1e-10)) != expect_tp or bool(eb.is_eq_constraint_satisfied(1e-10)) != expect_tp or (not expect_tp and eb.is_physical(1e-10, 1e-10)):
+                    bad("is_tp:first_row_entry", "first-row entry (0, %d) changed by %g: is_tp=%s, is_physical=%s; by definition trace preserving: %s" % (
+                        b_, delta, eb.is_tp(1e-10), eb.is_physical(1e-10, 1e-10), expect_tp))
+                    break
+                if not expect_tp and psd:
+                    try:
+                        EL.EffectiveLindbladian(c, hs_b.copy(), is_physicality_required=True)
+                        bad("construct:first_row_entry", "a generator with first-row entry (0, %d) = %g is accepted with physicality required" % (b_, delta))
+                        break
+                    except ValueError:
+                        pass
         # equality projection: zero exactly the first row
         pert = el.hs.copy()
         pert[0, :] += np.array([0.3, -0.2, 0.1, 0.05])
